@@ -22,6 +22,7 @@ record ``ThirdPartyDistC19``; what it answers are uninterpreted functions of ``d
 * ``list.remove(x)``: the first occurrence is removed, the following elements move down by one (ValueError when absent);
 * a statement that is only a ``LOGGER.*`` call is skipped (logging is a no-op, message construction is dropped: DESIGN §2.2);
 * ``FilePathManager(...)`` (file names of the figures of ``plot``): an opaque value;
+* iteration over a matrix yields its rows (new vectors);
 * ``list(map(f, X))`` is not modelled (rank-2 batches are out of the scope of these contracts).
 """
 from __future__ import annotations
@@ -226,18 +227,103 @@ def _marg_samples(ex, recv, args, kwargs):
 G.RECORD_METHODS[(BDCLS, "compute_samples")] = _marg_samples
 
 
+# ---- the joint distribution of ALL the uncertain variables of a parameter space (an opaque value): its sampler
+joint_dimension = z3.Function("c19_full_joint_dimension", ValS, INT)  # number of columns of its samples (what the third-party / gemseo joint reports)
+declare_ghost("c19_joint_draw_n", INT)  # number of calls of the sampler of a full joint distribution
+declare_ghost("c19_joint_draw_of", ValS)  # last call: the joint distribution, the number of samples, the returned matrix
+declare_ghost("c19_joint_draw_size", INT)
+declare_ghost("c19_joint_draw_values", F2.sort())
+JOINT_DRAW_GHOSTS = ("ghost:c19_joint_draw_n", "ghost:c19_joint_draw_of", "ghost:c19_joint_draw_size", "ghost:c19_joint_draw_values")
+
+
+# ---- distribution classes as values (DistributionFactory().get_class(name)): abstract, identified by the class name
+family_id = z3.Function("c19_family_id", StrS, StrS)  # distribution_class.__name__[0:2]  ("SP" / "OT")
+default_marginal = z3.Function("c19_default_marginal", StrS, MARG.sort())  # distribution_class() without arguments
+FACTORY = ("distribution classes are abstract values identified by their name: DistributionFactory().get_class(name) never fails here (an unknown name raises ImportError in "
+           "gemseo, not modelled), cls.__name__[0:2] = c19_family_id(name), cls() = the marginal c19_default_marginal(name) (or a ValueError of the library), "
+           "cls.JOINT_DISTRIBUTION_CLASS(marginals) = a joint distribution with exactly these marginals, in order, whose bound vectors take component i from marginal i "
+           "(verified contract of BaseJointDistribution._set_bounds)")
+
+
+class FactoryV:
+    pass
+
+
+class DistClassV:
+    def __init__(self, name, what="class"):
+        self.name, self.what = name, what  # name: z3 Str term; what: class | __name__ | joint
+
+
+def _new_joint(ex, marginals):
+    """joint_distribution_class(marginals): the record whose marginals are the given list and whose bound vectors are those _set_bounds computes."""
+    st = ex.st
+    L = st.heap[marginals.id] if isinstance(marginals, Ref) else None
+    if not isinstance(L, ListObj) or (L.t != MARG and not L.is_empty_literal):
+        raise Unsupported("joint distribution of something else than a list of marginals")
+    j = st.fresh_const("joint", JS_)
+    n = z3.IntVal(0) if L.is_empty_literal else L.n
+    st.assume(j_n(j) == n)
+    if not L.is_empty_literal:
+        st.assume(MARGS.dt.accessor(0, 1)(JOINT.accessor("marginals")(j)) == L.elems)
+    i = z3.Int("i!nj")
+    for f in ("math_lower_bound", "math_upper_bound", "num_lower_bound", "num_upper_bound"):
+        b = JOINT.accessor(f)(j)
+        st.assume(F1.dim(b) == n)
+        st.assume(z3.ForAll([i], z3.Implies(z3.And(0 <= i, i < n), F1.els(b)[i] == MARG.accessor(f)(MARGS.dt.accessor(0, 1)(JOINT.accessor("marginals")(j))[i])),
+                            patterns=[F1.els(b)[i]]))
+    ex.assumed.add(FACTORY)
+    return SV(j, JOINT)
+
+
 class C19Models:
     """Hooks gated on ``c19 = True`` contracts."""
 
+    def call_opaque(self, ex, fv, args, kwargs, lineno):
+        if isinstance(fv, DistClassV) and fv.what == "class":
+            from .engine import PyRaise
+
+            if args or kwargs:
+                raise Unsupported("distribution class called with parameters (only the default-parameter case is modelled)")
+            ex.assumed.add(FACTORY)
+            if ex.st.choose(2) == 1:
+                raise PyRaise("ValueError", lineno)  # the library may reject the (default) parameters
+            return SV(default_marginal(fv.name), MARG)
+        if isinstance(fv, DistClassV) and fv.what == "joint" and len(args) == 1 and not kwargs:
+            return _new_joint(ex, args[0])
+        return NotImplemented
+
+    def to_iter(self, ex, v, lineno):
+        """Iteration over a matrix: its rows (each a new vector)."""
+        if _on(ex) and _is_arr(ex, v) and _arr(ex, v).rank == 2:
+            from .engine import IterV
+
+            A = _arr(ex, v)
+            return IterV(A.shape[0], lambda i: _NP.new(ex, A.kind, (A.shape[1],), _NP.lam(1, lambda j: A.at(i, j))))
+        return NotImplemented
+
+    def getitem(self, ex, cont, key, lineno):
+        if isinstance(cont, DistClassV) and cont.what == "__name__" and isinstance(key, tuple) and key[:1] == ("slice",) and key[1:] == (0, 2, None):
+            ex.assumed.add(FACTORY)
+            return SV(family_id(cont.name), TStr)
+        return NotImplemented
+
     def construct(self, ex, cv, args, kwargs, lineno):
+        if _on(ex) and cv.qualname == "gemseo.uncertainty.distributions.factory.DistributionFactory" and not args and not kwargs:
+            return FactoryV()
         if _on(ex) and cv.qualname == "gemseo.utils.file_path_manager.FilePathManager":
             # the manager of figure file names of a distribution (used by plot() only): an opaque value
             return SV(ex.st.fresh_const("file_path_manager", ValS), TVal)
         return NotImplemented
 
     def skip_stmt(self, ex, node):
-        """A statement that is only a LOGGER.* call: logging is a no-op and the construction of its message is dropped (DESIGN §2.2)."""
+        """A statement that is only a LOGGER.* call: logging is a no-op and the construction of its message is dropped (DESIGN §2.2).
+        `self.__uncertain_variables_to_definitions[name] = ...` (the textual definitions kept for __getitem__ / add_variables_from): not modelled."""
         import ast
+
+        if _on(ex) and isinstance(node, ast.Assign) and len(node.targets) == 1 and isinstance(node.targets[0], ast.Subscript) \
+                and isinstance(node.targets[0].value, ast.Attribute) and node.targets[0].value.attr == "__uncertain_variables_to_definitions":
+            ex.assumed.add("the dictionary __uncertain_variables_to_definitions (definitions kept for __getitem__ / add_variables_from) is not modelled: its update is skipped")
+            return True
 
         if _on(ex) and isinstance(node, ast.Expr) and isinstance(node.value, ast.Call) and isinstance(node.value.func, ast.Attribute) \
                 and isinstance(node.value.func.value, ast.Name) and node.value.func.value.id == "LOGGER":
@@ -245,6 +331,12 @@ class C19Models:
         return NotImplemented
 
     def value_attr(self, ex, obj, attr, lineno):
+        if isinstance(obj, FactoryV):
+            from .values import BoundMethod
+
+            return BoundMethod(obj, None, attr)
+        if isinstance(obj, DistClassV) and obj.what == "class" and attr in ("__name__", "JOINT_DISTRIBUTION_CLASS"):
+            return DistClassV(obj.name, "__name__" if attr == "__name__" else "joint")
         if isinstance(obj, SV) and obj.ty == MARG and attr in ("mean", "standard_deviation"):
             ex.assumed.add(MARGINAL)
             return SV((mean_v if attr == "mean" else std_v)(MARG.accessor("distribution")(obj.term)), TReal)
@@ -270,6 +362,23 @@ class C19Models:
         return NotImplemented
 
     def call_method(self, ex, recv, name, args, kwargs, lineno):
+        if _on(ex) and name == "compute_samples" and isinstance(recv, SV) and recv.ty == TVal and len(args) == 1 and not kwargs:
+            # sampler of the joint distribution of all the uncertain variables: a NEW n x dimension matrix, not determined by the arguments (ghost record)
+            st = ex.st
+            n = _size(ex, args[0], lineno)
+            d = joint_dimension(recv.term)
+            st.assume(d >= 0)
+            arr = _NP.new(ex, "f", (n, d), st.fresh_const("jointdraw", z3.ArraySort(INT, INT, REAL)))
+            A = _arr(ex, arr)
+            st.ghost_set("c19_joint_draw_n", st.ghost_get("c19_joint_draw_n", INT) + 1)
+            st.ghost_set("c19_joint_draw_of", recv.term)
+            st.ghost_set("c19_joint_draw_size", n)
+            st.ghost_set("c19_joint_draw_values", F2.dt.mk(A.shape[0], A.shape[1], A.elems))
+            ex.assumed.add(SAMPLING)
+            return arr
+        if isinstance(recv, FactoryV) and name == "get_class" and len(args) == 1:
+            ex.assumed.add(FACTORY)
+            return DistClassV(TStr.embed(ex.st, args[0]))
         if not _on(ex):
             return NotImplemented
         if name == "remove" and isinstance(recv, Ref) and isinstance(ex.st.heap[recv.id], ListObj) and len(args) == 1 and not ex.st.heap[recv.id].is_empty_literal:
